@@ -8,6 +8,9 @@ use serde::{Deserialize, Serialize};
 pub enum WOp {
     Emit(String),
     Flush,
+    /// only meaningful for the queue seam: clone the queuing sink handle and drop the clone
+    /// (must not touch the wrapped buffered sink); a no-op elsewhere
+    CloneDrop,
 }
 
 #[derive(Serialize, Deserialize, Clone, Debug)]
@@ -32,6 +35,8 @@ pub struct GenCfg {
     pub fixed_term: Option<&'static str>,
     /// weight of Flush among the ops (of 10)
     pub flush_weight: u32,
+    /// weight of CloneDrop (queue seam only)
+    pub clone_drop_weight: u32,
 }
 
 pub fn cap_strategy(big: u32) -> BoxedStrategy<usize> {
@@ -115,6 +120,7 @@ pub fn writer_case(cfg: GenCfg) -> BoxedStrategy<WriterCase> {
             let op = prop_oneof![
                 (10 - cfg.flush_weight) => metric_strategy(cap, term.clone()).prop_map(WOp::Emit),
                 cfg.flush_weight => Just(WOp::Flush),
+                cfg.clone_drop_weight => Just(WOp::CloneDrop),
             ];
             let faults = if cfg.faults {
                 prop::collection::vec(
